@@ -196,6 +196,10 @@ pub enum Item {
     HttpSig(HttpSigS),
     MtuLabel(String),
     MtuSig(u16),
+    /// an additional `classes = ...` line (the format allows the key anywhere; entries accumulate)
+    Classes(Vec<String>),
+    /// an additional `ua_os = ...` line
+    UaOs(Vec<(String, Option<String>)>),
 }
 #[derive(Clone, Debug, Serialize, Deserialize, Hash)]
 pub struct Section {
@@ -241,6 +245,11 @@ impl DbText {
             for it in &s.items {
                 match (it, s.kind % 5) {
                     (Item::Comment(c), _) => out.push_str(&format!("; {c}\n")),
+                    (Item::Classes(c), _) if !c.is_empty() => out.push_str(&format!("classes{eq}{}\n", c.join(","))),
+                    (Item::UaOs(u), _) if !u.is_empty() => {
+                        let e: Vec<String> = u.iter().map(|(n, v)| match v { Some(v) => format!("{n}=[{v}]"), None => n.clone() }).collect();
+                        out.push_str(&format!("ua_os{eq}{}\n", e.join(",")))
+                    }
                     (Item::Blank, _) => out.push('\n'),
                     (Item::MtuLabel(l), 0) => {
                         have_label = true;
@@ -270,7 +279,12 @@ fn phrase() -> impl Strategy<Value = String> {
 }
 
 fn item(kind: u8) -> BoxedStrategy<Item> {
-    let common = prop_oneof![1 => phrase().prop_map(Item::Comment), 1 => Just(Item::Blank)];
+    let common = prop_oneof![
+        4 => phrase().prop_map(Item::Comment),
+        4 => Just(Item::Blank),
+        1 => vec(word(), 1..3).prop_map(Item::Classes),
+        1 => vec((word(), proptest::option::weighted(0.4, word())), 1..3).prop_map(Item::UaOs),
+    ];
     match kind % 5 {
         0 => prop_oneof![1 => common, 2 => phrase().prop_map(Item::MtuLabel), 4 => any::<u16>().prop_map(Item::MtuSig)].boxed(),
         k => {
